@@ -605,6 +605,7 @@ def judge(sess, recs, fresh):
     seen_xform = {}
     for i, kind, req in step_requests(sess, recs):
         st, rec = sess['steps'][i], recs[i]
+        oseed = other_seed(seed)
         same, diff = fresh.get(seed, req), fresh.get(oseed, req)
         if same is None or diff is None or 'fresh-worker-crash' in str(same) + str(diff) or 'childcrash' in str(same) + str(diff):
             continue
@@ -1383,7 +1384,12 @@ def run(tier='quick', replay=None):
         unexplained = [d for d in res.disagreements if (d['session'], d['step']) not in ce_steps or d['what'] != 'query']
         seen_corr = set()
         if os.environ.get('C16_DEBUG'):
-            print('DEBUG unexplained', [(d['session'], d['step'], d['what']) for d in unexplained], 'ces', sorted(x for x in ce_steps if x[0] in {d['session'] for d in unexplained}))
+            print('DEBUG unexplained', [(d['session'], d['step'], d['what']) for d in unexplained], 'ces', [(ce['session'], ce['step'], ce['what'], ce['kind']) for _, _, ce in all_ces if ce['session'] in {d['session'] for d in unexplained}])
+            for d in unexplained:
+                s_, r_ = sess_by_id[d['session']]
+                st_ = s_['steps'][d['step']]
+                rq = {'text': r_[d['step']]['texts'].get(st_.get('obj')), 'q': st_.get('q')}
+                print('DEBUG fresh', s_['hashseed'], [str(fresh.get(sd, rq))[:200] for sd in ZSEEDS], 'obs', str(r_[d['step']]['r'])[:200])
         for d in unexplained:
             k = 'correspondence:%s:%s' % (d['what'], d['op'].get('q', d['op'].get('m', d['op'].get('d', {}))).get('k', d['op'].get('m', d['op'].get('d', {})).get('how', d['op']['op'])) if isinstance(d['op'], dict) else '?')
             if k in seen_corr:
